@@ -241,9 +241,7 @@ pub fn cmd_c10_isa(which: &str, out: &mut dyn Write, dirs: &[String]) {
 /// `gen-heapwide <dir>`: (re)writes the directed family as .sc files (corpus/heapwide)
 pub fn cmd_write_wide(dir: &str) {
     std::fs::create_dir_all(dir).expect("create dir");
-    for i in 0..WIDE_DISTINCT {
-        let (k, v) = wide_params("a64", i);
-        if ![3, 5, 9, 12, 13, 14, 16].contains(&k) { continue; }
+    for (k, v) in [3usize, 5, 9, 12, 13, 14, 16].into_iter().flat_map(|k| (0..4usize).map(move |v| (k, v))) {
         let name = ["sum", "map", "drop", "share"][v];
         std::fs::write(format!("{dir}/wide_{name}_{k:02}.sc"), wide_program(k, v)).expect("write");
     }
